@@ -729,6 +729,9 @@ func c05(c *core.Ctx) {
 	// path keeps in its peek slot is cleared only when it was a message that has been copied out, never when it is the
 	// error frame that later calls must see again (C01/R3)
 	c.Borrow("C01", map[string]string{"R3": "R15"}, c01)
+	// "receives drain what was delivered and then yield the final status": over HTTP nothing can be left undelivered
+	// when the final status is published, because the reader hands messages over synchronously (C01/R14)
+	c.Borrow("C01", map[string]string{"R14": "R16"}, c01)
 	// a reply frame that is not flushed is a reply the client waits for until the handler returns — and a handler
 	// that waits for the client's answer to it never returns (C01/R12)
 	c.Borrow("C01", map[string]string{"R12": "R12"}, c01)
